@@ -462,7 +462,8 @@ func init() {
 	// ---- C20 ----
 	{
 		p := &Prop{ID: "C20", Outside: []string{
-			"the goroutine schedule of tool start / finish / callback, the semaphore bound and the wait-group / errgroup ordering protocol (process.go run/wait, linter.go eg.Wait before proc.wait): goroutines are executed sequentially here; a schedule-symbolic bounded model of the protocol is not built (see DESIGN.md section 6)",
+			"schedules of more goroutines than the schedule harness extracts (2 files x 1 run step, 1 CPU at quick; 2 x 2 and 3 x 1 at thorough); the per-goroutine event sequences are taken from one sequential run (thread modularity is assumed, not proved); sync primitives follow their documented contracts; the Go memory model / data races are not modelled",
+			"tool latency is modelled by the gap between the process-start and process-end events; native confirmation of a schedule violation uses a stand-in tool that stays alive for 0.3 s (3 files x NumCPU steps)",
 			"real tool processes in the symbolic runs (os/exec is replaced by a stub with symbolic outcomes; native replay uses /bin/sh as a stand-in tool); pipe and write failures cannot be replayed natively",
 			"scripts longer than the bound; shellcheck issue fields other than line/column; pyflakes message text beyond 2 bytes per record",
 		}}
@@ -474,11 +475,14 @@ func init() {
 			HRun{Entry: "HarnessC20Shellcheck", Bound: "tool error x non-JSON output x 0..3 issues with 64-bit symbolic line/column", Require: []string{"callback", "fatal"}},
 			HRun{Entry: "HarnessC20Pyflakes", Args: []int64{2}, Bound: "2 records with symbolic text, line terminator in {LF, CRLF, none}, optional junk lines", Require: []string{"callback", "unterminated"}},
 			HRun{Entry: "HarnessC20Shell", Bound: "shell at step / job default / workflow default in 7 spellings each x Linux / Windows runner (686 combinations)", Require: []string{"linted"}},
+			HRun{Entry: "HarnessC20Schedule", Args: []int64{2, 1, 1}, Bound: "LintFiles on 2 files x 1 run step, 1 CPU: every interleaving of the 5 goroutines' 29 sync events (13 atomic blocks after Lipton reduction): process bound, all collected before return, no deadlock", Require: []string{"linted", "complete-schedule-exists"}},
 		)
 		p.Thorough = append(append([]HRun{}, p.Quick...),
 			HRun{Entry: "HarnessC20Sanitize", Args: []int64{16}, Bound: "all scripts of length 16"},
 			HRun{Entry: "HarnessC20Sanitize", Args: []int64{20}, Bound: "all scripts of length 20"},
 			HRun{Entry: "HarnessC20Pyflakes", Args: []int64{3}, Bound: "3 records", Require: []string{"callback", "unterminated"}},
+			HRun{Entry: "HarnessC20Schedule", Args: []int64{3, 1, 1}, Bound: "3 files x 1 run step, 1 CPU: every interleaving of 7 goroutines", Require: []string{"linted", "complete-schedule-exists"}},
+			HRun{Entry: "HarnessC20Schedule", Args: []int64{2, 2, 1}, Bound: "2 files x 2 run steps, 1 CPU: every interleaving of 7 goroutines (19 atomic blocks)", Require: []string{"linted", "complete-schedule-exists"}},
 		)
 		props["C20"] = p
 	}
